@@ -824,18 +824,23 @@ func GenerateSelectResultRowData(r *mysql.Result) error {
 // copy from server.generateMapKey()
 func generateMapKey(groupColumns []interface{}) (string, error) {
 	bk := make([]byte, 0, 8)
-	separatorBuf, err := formatValue("+")
-	if err != nil {
-		return "", err
-	}
 
+	// every value is written with its length, and NULL with a mark of its own, so that different
+	// column tuples never give the same key ("a+","b" vs "a","+b"; NULL vs the string "NULL")
 	for _, v := range groupColumns {
+		if v == nil {
+			bk = append(bk, 'N', '+')
+			continue
+		}
 		b, err := formatValue(v)
 		if err != nil {
 			return "", err
 		}
+		bk = append(bk, 'V')
+		bk = strconv.AppendInt(bk, int64(len(b)), 10)
+		bk = append(bk, ':')
 		bk = append(bk, b...)
-		bk = append(bk, separatorBuf...)
+		bk = append(bk, '+')
 	}
 
 	return string(bk), nil
